@@ -76,6 +76,12 @@ CLAIMED["C16"] = dict(
         "pings that elicit automatic Pongs, Close, with the deterministic frame pool emptied at tape-chosen moments; transports: production stack with small send buffers/short writes and the scripted stream accepting 1..n bytes or deferring. "
         "Oracle: the complete outgoing byte stream parses (independent RFC 6455 parser) into exactly the submitted frames in order: mask bit, 4-byte key, un-masked payload equal to the caller's bytes, minimal length encoding, no trailing bytes; an over-max message returns an error and writes nothing.",
    note="One application write in flight at a time here (overlapping writes are C17). A would-block from a synchronous Write is not generated. An all-zero masking key is not judged (the statement does not require unpredictability).")
+CLAIMED["C08"] = dict(
+   technique="deterministic simulation: seeded histories of peer events and local calls checked against an executable RFC 6455 closing/ping state machine",
+   text="Histories (<= 12 events, from every stage) of peer {data, ping, pong, valid close with/without code, close with invalid code / invalid UTF-8 / 1-byte payload, frame with reserved bits, transport EOF, reset} interleaved with local {NextFrame, AsyncNextFrame, NextMessage, AsyncNextMessage, Write, AsyncWrite, WriteFrame, Flush, Close, AsyncClose}, on both transports. "
+        "A reference state machine consumes the same history (a frame counts when a read call consumes it) and says which frames must be on the wire: one Pong per Ping consumed while open, same payload, arrival order, ahead of later application frames; none for Pongs or after our Close; exactly one Close echoing the peer's code (1000 if none, 1002 if invalid) or ours; no data frame after it. "
+        "Reads must report end-of-stream after the closing handshake and io.EOF + a 1006 Close frame on unexpected EOF; writes and second closes must be refused; State() must lie in the set of stages the model allows.",
+   note="Peer frames are single-frame messages so that each read call consumes a known number of frames. After a connection reset nothing is judged except that calls return and the wire stays a prefix of what the history called for. Transport EOF is a half-close.")
 
 NOT_YET = {
 }
